@@ -20,7 +20,7 @@ RULE = ("(i) all 64 edge subsets of the 4-node topological order x 24 textual or
         "result names, side-effect-only sinks returning None, forward references), several programs per process; (iii) random EEMS models; "
         "each followed by a random history of 0-8 run()/result/metadata/to_string/validate_params steps; distinct by (n, edge count, "
         "styles used, has-sink, has-colliding-strings, history step kinds)")
-REQUIRED_COUNTERS = ["programs_run", "execute_events", "read_events", "history_steps", "reference_values_compared", "flatten_contract_evaluations", "retry_programs", "grown_programs"]
+REQUIRED_COUNTERS = ["programs_run", "execute_events", "read_events", "history_steps", "reference_values_compared", "flatten_contract_evaluations", "retry_programs", "grown_programs", "api_built_programs", "inside_execute_records_compared"]
 EXHAUSTIVE_NOTE = "thorough tier enumerates all 64 x 24 x 3 four-command programs"
 ASSUMPTIONS = ["programs that fail to run are judged elsewhere (C12-C14) unless the program is valid by construction",
                "the order in which independent commands run is not judged", "equality, not identity, of fed values is demanded"]
@@ -255,6 +255,10 @@ def cases(ctx):
         for k in range(rng.randint(1, 3)):
             extra.append({"name": "X%d" % k, "kind": "Op", "L": [rng.choice([nd["name"] for nd in nodes] + [e["name"] for e in extra]) for _ in range(rng.randint(1, 3))]})
         yield {"kind": "grow", "nodes": nodes, "order": order, "extra": extra, "history": _gen_history(rng, len(nodes))}
+    for i in range(ctx.n(200, 10000)):
+        # the same kind of program built through add_command, references given as result names or as Command objects
+        nodes = gen_dag(rng, n=rng.randint(2, 10))
+        yield {"kind": "apidag", "nodes": nodes, "history": _gen_history(rng, len(nodes)), "rseed": rng.randrange(10 ** 9)}
     for i in range(ctx.n(250, 12000)):
         m = models.gen_model(rng, n_ops=rng.randint(1, 10), sinks=True, metadata=rng.random() < 0.3, libs="nc" if i % 3 == 0 else "csv")
         m = models.permuted(m, rng)
@@ -361,15 +365,42 @@ def run_case(ctx, case):
     if case["kind"] == "grow":
         return run_grow(ctx, case)
     nodes = case["nodes"]
-    text = to_text(nodes, case["order"])
     names = [nd["name"] for nd in nodes]
-    detail = {"text": text}
-    ctx.count("programs_run")
-    try:
-        prog = Program.from_source(text, libraries=("vprobe",))
-    except Exception as e:
-        ctx.fail("dag:valid-program-does-not-load:%s" % type(e).__name__, dict(detail, error=repr(e)[:200]))
-        return
+    import vprobe
+    if case["kind"] == "apidag":
+        text = to_text(nodes, list(range(len(nodes))))
+        detail = {"text": text, "built_through": "add_command"}
+        ctx.count("programs_run")
+        ctx.count("api_built_programs")
+        prng = random.Random(case["rseed"])
+        try:
+            prog = Program(libraries=("vprobe",))
+
+            def refv(x):
+                if isinstance(x, list):
+                    return [refv(i) for i in x]
+                return prog.commands[x] if prng.random() < 0.6 else x      # the Command object itself, or its result name
+
+            for nd in nodes:                 # generated in dependency order
+                args = {}
+                for k, v in nd.items():
+                    if k in ("name", "kind"):
+                        continue
+                    args[k] = refv(v) if k in ("A", "B", "L", "LL", "N3", "S", "N", "LS", "Any") else (list(v) if isinstance(v, list) else v)
+                prog.add_command(prog.find_command_class(nd["kind"]), nd["name"], args)
+        except Exception as e:
+            ctx.fail("dag:valid-program-does-not-load:%s" % type(e).__name__, dict(detail, error=repr(e)[:200]))
+            return
+    else:
+        text = to_text(nodes, case["order"])
+        detail = {"text": text}
+        ctx.count("programs_run")
+        try:
+            prog = Program.from_source(text, libraries=("vprobe",))
+        except Exception as e:
+            ctx.fail("dag:valid-program-does-not-load:%s" % type(e).__name__, dict(detail, error=repr(e)[:200]))
+            return
+    del vprobe.EXEC_LOG[:]
     log = trace.start()
     trace.attach(prog)
     err = None
@@ -393,6 +424,29 @@ def run_case(ctx, case):
             ctx.fail("dag:value-differs-from-graph-evaluation", dict(detail, command=n, got=repr(got)[:300], want=repr(want[n])[:300]))
             return
     kinds = run_history(ctx, prog, names, returned, case["history"], "dag", detail)
+    # the commands' own record of their executions (written inside execute(), so it also sees instances the recorder never
+    # wrapped): exactly one entry per command of the program, and consumers were handed the program's own command objects
+    ctx.count("inside_execute_records_compared")
+    inside = list(vprobe.EXEC_LOG)
+    if sorted(inside) != sorted(names):
+        from collections import Counter
+        cnt = Counter(inside)
+        ctx.fail("dag:execute-ran-%s-according-to-the-commands-themselves" % ("more-than-once" if any(v > 1 for v in cnt.values()) else "not-for-every-command"),
+                 dict(detail, executions={n: cnt.get(n, 0) for n in names if cnt.get(n, 0) != 1}))
+        return
+    for e in log:
+        if e["k"] == "exec_enter":
+            stack = [e["kw"]]
+            while stack:
+                x = stack.pop()
+                if isinstance(x, dict) and "ref" in x:
+                    if x["ref"] in prog.commands and x["obj"] != id(prog.commands[x["ref"]]):
+                        ctx.fail("dag:consumer-handed-a-command-object-that-is-not-the-program's", dict(detail, consumer=e["name"], reference=x["ref"]))
+                        return
+                elif isinstance(x, dict):
+                    stack.extend(x.values())
+                elif isinstance(x, list):
+                    stack.extend(x)
     styles = tuple(sorted(set(k for nd in nodes for k in nd if k in ("A", "B", "L", "LL", "N3", "Tag", "Labels"))))
     ctx.feature((len(nodes), sum(1 for e in log if e["k"] == "read_done"), styles, any(nd["kind"] == "Sink" for nd in nodes), tuple(sorted(set(kinds)))))
     if len(ctx.samples) < 4 and len(nodes) >= 4 and case["history"]:
